@@ -91,6 +91,9 @@ GenView == <<cfg, m, nf, ncmd, obs, {Kind(hist[i]) : i \in 1..Len(hist)}>>
 TxOf(i) == Cardinality({j \in 1..(i - 1) : hist[j].a = "Cmd" /\ hist[j].v \in {"RSET", "DATA", "HELO"}})
 KindTx(i) == IF hist[i].a = "Cmd" THEN <<"C", hist[i].v, hist[i].arg, hist[i].r, TxOf(i)>> ELSE Kind(hist[i])
 GenViewTx == <<cfg, m, nf, ncmd, obs, {KindTx(i) : i \in 1..Len(hist)}>>
+\* target calls distinguished by the class of their result (annotated temporary / permanent / none)
+KindRes(i) == IF hist[i].a = "Tgt" THEN <<"T", hist[i].tgt, hist[i].op, hist[i].res, hist[i].st>> ELSE Kind(hist[i])
+GenViewRes == <<cfg, m, nf, ncmd, obs, {KindRes(i) : i \in 1..Len(hist)}>>
 \* coarser: one behaviour per distinct final state
 GenViewPlain == <<cfg, m, nf, ncmd, obs>>
 
